@@ -155,8 +155,9 @@ func c04VacuumOrder(c *Ctx) {
 		return
 	}
 	name := core.FuncName(fn)
+	sc := c.Scope(fn)
 	var commits, dhCalls []ssa.CallInstruction
-	for _, call := range an.Calls(fn) {
+	for _, call := range sc.Calls() {
 		if an.CalleeIs(call, kvPkg, "DB", "Commit") {
 			commits = append(commits, call)
 		}
@@ -170,7 +171,7 @@ func c04VacuumOrder(c *Ctx) {
 	}
 	commit := commits[0]
 	for _, d := range dhCalls {
-		ok, why := an.SuccessDominates(commit, d)
+		ok, why := sc.SuccessDominates(commit, d)
 		c.R.Cond(ok, rule, name+": history deleted after commit", c.P.Pos(d.Pos()), "DeleteHistoricVersions runs only after the vacuumed tree was committed",
 			"history can be deleted before/without the commit that supersedes it: "+why)
 	}
@@ -178,18 +179,10 @@ func c04VacuumOrder(c *Ctx) {
 		c.R.Bad(rule, name+": history deleted after commit", c.P.Pos(fn.Pos()), "Vacuum never calls DeleteHistoricVersions")
 	}
 	n := 0
-	for _, b := range fn.Blocks {
-		for _, in := range b.Instrs {
-			st, ok := in.(*ssa.Store)
-			if !ok {
-				continue
-			}
-			fa, ok := st.Addr.(*ssa.FieldAddr)
-			if !ok || an.FieldVar(fa.X.Type(), fa.Field) != rootField {
-				continue
-			}
+	for _, f := range sc.Funcs {
+		for _, st := range an.StoresToField(f, rootField) {
 			n++
-			ok2, why := an.SuccessDominates(commit, st)
+			ok2, why := sc.SuccessDominates(commit, st)
 			c.R.Cond(ok2, rule, name+": live tree swapped after commit", c.P.Pos(st.Pos()), "the table switches to the vacuumed tree only after it was committed",
 				"the live tree is replaced before/without a successful commit: "+why)
 		}
@@ -233,8 +226,9 @@ func c04VacuumPurge(c *Ctx) {
 		return
 	}
 	name := core.FuncName(fn)
+	sc := c.Scope(fn)
 	var tombs, purges, commits []ssa.CallInstruction
-	for _, call := range an.Calls(fn) {
+	for _, call := range sc.Calls() {
 		switch {
 		case an.CalleeIs(call, kvPkg, "DB", "Tombstone"):
 			tombs = append(tombs, call)
@@ -257,7 +251,7 @@ func c04VacuumPurge(c *Ctx) {
 	if ok {
 		ok = false
 		for _, p := range purges {
-			if s, _ := an.SuccessDominates(p, commits[0]); s {
+			if s, _ := sc.SuccessDominates(p, commits[0]); s {
 				ok = true
 			}
 		}
